@@ -709,6 +709,9 @@ class Resolver:
                 return {("str",)}
             if t == "path" and attr == "parts":
                 return {("tuple",)}
+            pyt = {"str": str, "bytes": bytes, "list": list, "dict": dict, "set": set, "tuple": tuple, "int": int, "float": float}.get(t)
+            if pyt is not None and not hasattr(pyt, attr) and not hasattr(bytearray if t == "bytes" else pyt, attr):
+                return set()        # no such attribute on a value of that builtin type: this alternative cannot execute
             return {("bmeth", k, attr)}
         return {("umeth", attr)}
 
